@@ -305,6 +305,7 @@ class GenCfg:
     p_charge: float = 0.3
     p_adducts: float = 0.4        # given a charge
     p_rule_collision: float = 0.12  # given static rules
+    p_single: float = 0.08          # reduce the peptide to exactly one kind of annotation
     neg_charge: bool = True
     labels: List[str] = field(default_factory=lambda: list(LABELS))
     shuffle_start: bool = True
@@ -459,6 +460,32 @@ def gen_pep(rng, cfg: GenCfg) -> Pep:
         p.charge_text = f'+{c}' if (c > 0 and rng.random() < 0.3) else str(c)
         if rng.random() < cfg.p_adducts:
             p.adducts = gen_adducts(rng)
+    if rng.random() < cfg.p_single:
+        # exactly ONE kind of annotation on the whole peptide (fast paths that ask "is there any modification?" take
+        # the wrong branch only when the one kind they forget is the only kind present)
+        present = [k for k, v in (('labile', p.labile), ('static', p.static), ('isotope', p.isotope),
+                                  ('unknown', p.unknown), ('nterm', p.nterm), ('cterm', p.cterm), ('res', p.res),
+                                  ('intervals', p.intervals), ('charge', p.charge is not None)) if v]
+        if len(present) >= 2:
+            keep = rng.choice(present)
+            if keep != 'labile':
+                p.labile = []
+            if keep != 'static':
+                p.static = []
+            if keep != 'isotope':
+                p.isotope = []
+            if keep != 'unknown':
+                p.unknown = []
+            if keep != 'nterm':
+                p.nterm = []
+            if keep != 'cterm':
+                p.cterm = []
+            if keep != 'res':
+                p.res = {}
+            if keep != 'intervals':
+                p.intervals = []
+            if keep != 'charge':
+                p.charge, p.charge_text, p.adducts = None, None, None
     if cfg.shuffle_start:
         order = ['labile', 'static', 'isotope']
         rng.shuffle(order)
